@@ -568,6 +568,36 @@ def check_C19(ctx):
                            "idempotence) is SAMPLED over seeded generated objects of the modelled schema and judged with semantic deep equality")
 
 
+def replay_watch(prop, inv, rp, wd):
+    vlib.run_harness(["watch", "--ops", json.dumps(rp["ops"]), "--out", os.path.join(wd, "rec")])
+    sh = os.path.join(wd, "rec", "shard-00.ndjson")
+    c = Ctx.__new__(Ctx)
+    r = Ctx._tlc_with_cfg(c, "TraceWatch", "replay.cfg", WATCH_CFG + "INVARIANT %s\n" % inv, os.path.join(wd, "tlc"), 1, 600, "2g", True, env={"VERIF_TRACE": sh})
+    if r.errors:
+        return False, "replay could not be evaluated: " + r.errors[0][:300]
+    return any(v[0] == inv for v in r.violations), "invariant holds on replay"
+
+
+REPLAYERS["watch"] = replay_watch
+WATCH_CFG = "CONSTANTS Kinds = {\"Added\"}\n MaxLen = 1\n MaxStops = 1\nINIT TInit\nNEXT TNext\nCHECK_DEADLOCK FALSE\n"
+
+
+def check_C20(ctx):
+    q = ctx.quick
+    mc = ("CONSTANTS Kinds = {\"Added\", \"Modified\", \"Deleted\", \"Bookmark\", \"Error\"}\n MaxLen = %d\n MaxStops = 2\n"
+          "SPECIFICATION WSpec\nCHECK_DEADLOCK FALSE\nINVARIANT InOrder\nINVARIANT NoLoss\nINVARIANT StopsSource\nINVARIANT StopOnce\nPROPERTY CleansUp\n")
+    ctx.design("Watch", mc % (3 if q else 4), "relay-3-processes")
+    d, shards, meta = ctx.harness(["watch", "--depth", "4" if q else "6"], "schedules", timeout=3400)
+    ctx.trace("TraceWatch", WATCH_CFG + "INVARIANT Conf\nINVARIANT P_C20\n", shards, "schedules", {"P_C20"},
+              replay=lambda rec: {"kind": "watch", "ops": rec["ops"]})
+    ctx.exhaustive = True
+    ctx.extra["domains"] = [meta]
+    ctx.add_samples(shards, 2, lambda r: "stop" in r["ops"] and any(o.startswith("send:Error") for o in r["ops"]) and len(r["ops"]) >= 4)
+    ctx.assumptions.append("every step of a schedule is a rendezvous with a deadline (150 ms); a relay that has not closed the result channel "
+                           "300 ms after Stop is counted as leaked; relay panics are recorded through apimachinery's panic handlers instead of "
+                           "killing the harness process")
+
+
 def check_C06(ctx):
     q = ctx.quick
     # the label of the revision a pod is built from, with several revisions in flight (current != update, partitions)
@@ -719,6 +749,6 @@ def check_C01(ctx):
 
 
 CHECKS = {
-    "C01": check_C01, "C02": check_C02, "C08": check_C08, "C16": check_C16, "C17": check_C17, "C18": check_C18, "C19": check_C19, "C06": check_C06, "C09": check_C09, "C10": check_C10, "C11": check_C11, "C13": check_C13, "C15": check_C15,
+    "C01": check_C01, "C02": check_C02, "C08": check_C08, "C16": check_C16, "C17": check_C17, "C18": check_C18, "C19": check_C19, "C20": check_C20, "C06": check_C06, "C09": check_C09, "C10": check_C10, "C11": check_C11, "C13": check_C13, "C15": check_C15,
     "C03": check_C03, "C04": check_C04, "C05": check_C05, "C07": check_C07, "C12": check_C12, "C14": check_C14,
 }
